@@ -144,7 +144,16 @@ struct Options {
       if (g_rec->prune_pos >= 0) g_rec->t_pruned.fetch_add(1, std::memory_order_relaxed);
       if (h.sequential) g_ctl->states.fetch_add(g_rec->npoints.load() - (uint32_t)prefix.size() + 1, std::memory_order_relaxed);
       std::string& oc = current_outcome();
-      if (outcomes.size() < 20000 || outcomes.count(oc)) ++outcomes[oc]; else ++outcomes["<more>"];
+      bool fresh = !outcomes.count(oc);
+      if (outcomes.size() < 20000 || !fresh) ++outcomes[oc]; else ++outcomes["<more>"];
+      if (fresh && outcomes.size() <= 64) {
+        // a new distinct outcome: report the accumulated counts right away so that they survive a later
+        // death of this worker (crash containment / expected std::terminate)
+        Buf ob; ob.u32(2); ob.u32((uint32_t)outcomes.size());
+        for (auto& kv : outcomes) { ob.u32(kv.second); ob.str(kv.first); }
+        if (!send_msg(fd, ob)) _exit(0);
+        for (auto& kv : outcomes) kv.second = 0;
+      }
       uint32_t np = g_rec->npoints.load();
       if (samples.size() < 2 && np <= 400) samples.push_back(choices_str(*g_rec, np) + " => " + oc);
       rest.clear();
@@ -395,11 +404,16 @@ struct Explorer {
           Buf in;
           if (recv_msg(s.fd, in)) {
             uint32_t kind = in.g32();
+            if (kind == 2) {
+              uint32_t no = in.g32();
+              for (uint32_t j = 0; j < no; ++j) { uint32_t c = in.g32(); std::string o = in.gstr(); if (c) merge_outcome(o, c); }
+              continue;
+            }
             uint32_t nt = in.g32();
             if (kind == 1) { for (uint32_t j = 0; j < nt; ++j) queue.push_back(get_task(in)); continue; }
             for (uint32_t j = 0; j < nt; ++j) queue.push_back(get_task(in));
             uint32_t no = in.g32();
-            for (uint32_t j = 0; j < no; ++j) { uint32_t c = in.g32(); std::string o = in.gstr(); merge_outcome(o, c); }
+            for (uint32_t j = 0; j < no; ++j) { uint32_t c = in.g32(); std::string o = in.gstr(); if (c) merge_outcome(o, c); }
             uint32_t ns = in.g32();
             for (uint32_t j = 0; j < ns; ++j) { std::string sm = in.gstr(); if (samples.size() < 6) samples.push_back("p<=" + std::to_string(bound) + ": " + sm); }
             bs.execs += s.rec->t_execs.load(); bs.steps += s.rec->t_steps.load(); bs.pruned += s.rec->t_pruned.load();
